@@ -266,6 +266,14 @@ static void c04(void) {
       b = bytes_of_tok(vtok[i + 1], &n);
       r = coap_update_token(pdu, n, b) != 0;
       i += 2;
+    } else if (k == 'A' && i + 2 < vntok) {
+      b = bytes_of_tok(vtok[i + 2], &n);
+      r = coap_add_option(pdu, (coap_option_num_t)atoi(vtok[i + 1]), n, b) != 0;
+      i += 3;
+    } else if (k == 'D' && i + 1 < vntok) {
+      b = bytes_of_tok(vtok[i + 1], &n);
+      r = coap_add_data(pdu, n, b) != 0;
+      i += 2;
     } else {
       fputs(" ERROR bad edit op", stdout);
       break;
